@@ -38,12 +38,33 @@ type c06Cfg struct {
 	// ReadLate: the application's first Read happens only after target bytes were relayed onto
 	// the stream (a target that speaks first, an application that is slow to read)
 	ReadLate bool
+	// DecliningHook: a request hook is configured (e.g. sniffing enabled) but declines this
+	// request (Check returns false): the connection is one "no request hook intercepts", everything
+	// must be exactly as without a hook
+	DecliningHook bool
+}
+
+// c06DecliningHook declines every request; its TCP/UDP methods must never be called.
+type c06DecliningHook struct{ e *vsched.Exec }
+
+func (h c06DecliningHook) Check(isUDP bool, reqAddr string) bool { return false }
+func (h c06DecliningHook) TCP(stream HyStream, reqAddr *string) ([]byte, error) {
+	h.e.Fail("RequestHook.TCP called for a request its Check declined")
+	return nil, nil
+}
+func (h c06DecliningHook) UDP(data []byte, reqAddr *string) error {
+	h.e.Fail("RequestHook.UDP called for a request its Check declined")
+	return nil
 }
 
 const c06Addr = "target.example:80"
 
 func c06Run(e *vsched.Exec, c c06Cfg) {
-	r := newRig(e, rigOpts{Traffic: c.Logger})
+	opts := rigOpts{Traffic: c.Logger}
+	if c.DecliningHook {
+		opts.Mutate = func(cfg *Config) { cfg.RequestHook = c06DecliningHook{e} }
+	}
+	r := newRig(e, opts)
 	if r.srv == nil {
 		return
 	}
@@ -349,6 +370,16 @@ func c06Scenarios(thorough bool) []*explore.Scenario {
 				}
 			}
 		}
+	}
+	// a configured request hook that declines the request (added after the seeded change C06-4: the
+	// responses were skipped whenever a hook was configured, intercepting or not)
+	for _, fo := range []bool{false, true} {
+		sfx := fmt.Sprintf("/fastopen=%v/declining-hook", fo)
+		cfgs = append(cfgs,
+			c06Cfg{Name: "both-tgtcloses" + sfx, AppSend: []string{"abc"}, TgtSend: []string{"x", "yz0"}, TgtClose: "after-reading-all", AppClose: "never", FastOpen: fo, Logger: true, Whole: "both", DecliningHook: true},
+			c06Cfg{Name: "t2c-readlate" + sfx, TgtSend: []string{"x", "yz0"}, TgtClose: "after-writes", AppClose: "never", FastOpen: fo, Logger: true, Whole: "t2c", ReadLate: true, DecliningHook: true},
+			c06Cfg{Name: "dialerr" + sfx, AppSend: []string{"a"}, AppClose: "never", TgtClose: "never", FastOpen: fo, Logger: true, DialErr: "connection refused by policy", DecliningHook: true},
+		)
 	}
 	// small windows and short reads (cursor/offset logic of the copy loops)
 	cfgs = append(cfgs,
